@@ -484,7 +484,15 @@ pub fn reserve_template(rng: &mut Prng, n_eoa: usize, base: usize, pre_state: &m
     let mut intents = Vec::new();
     let n_calls = rng.range(1, 3) as usize;
     for _ in 0..n_calls {
-        intents.push(Intent::call(s(rng), a, &[0, *rng.pick(&amounts), *rng.pick(&amounts)], "call-delegated"));
+        let mut intent = Intent::call(s(rng), a, &[0, *rng.pick(&amounts), *rng.pick(&amounts)], "call-delegated");
+        if rng.chance(1, 4) {
+            // long non-zero calldata: the EIP-7623 floor exceeds what the execution spends, so the floor
+            // decides the charge (also for a forced revert)
+            let mut data = intent.data.to_vec();
+            data.extend(std::iter::repeat_n(0x5au8, *rng.pick(&[800usize, 2000, 4000])));
+            intent.data = Bytes::from(data);
+        }
+        intents.push(intent);
     }
     if rng.chance(1, 2) {
         // a credit to the delegated account before / between the debits
@@ -572,5 +580,64 @@ pub fn conflict_dense(rng: &mut Prng, n_eoa: usize, base: usize, max_txs: usize,
             out.insert(at, Intent::call(rng.below(n_eoa as u64) as usize, probe, &[2000 + k], "coinbase-probe"));
         }
     }
+    out
+}
+
+
+// ------------------------------------------------------------------------------------------------
+// C01 / C02 / C07: reward-race template. One contract whose calls (mode selected by calldata word 0)
+//   mode 0: write slot k = BALANCE(COINBASE) + c      (a writer that depends on every preceding reward:
+//           blocked by the beneficiary history while a predecessor's entry is an estimate, its write
+//           is then published as an estimate)
+//   mode 1: branch on the parity of slot k: odd -> one more cold SLOAD (a different amount of gas,
+//           hence a different reward, for a stale and a final incarnation), no write
+//   mode 2: like mode 1, and additionally write slot k' (the write set does not change between
+//           incarnations, so a retry issues no rewind)
+//   mode 3: store BALANCE(COINBASE) into a private slot (a reader of the fold of all preceding rewards)
+// interleaved with plain transfers whose senders may be slow to load. Every later transaction's
+// observation of the fee recipient is exact only if every stale reward is kept out of the history.
+// ------------------------------------------------------------------------------------------------
+
+pub fn reward_race(rng: &mut Prng, n_eoa: usize, base: usize, max_txs: usize, pre_state: &mut Vec<AccountSpec>) -> Vec<Intent> {
+    let k = contract(base);
+    let odd = |e: Expr| Expr::And(Box::new(e), Box::new(imm(1)));
+    // cd0 == m  <=>  cd0 + (2^256 - m) == 0
+    let mode_is = |m: u64| Expr::IsZero(Box::new(add(Expr::CallData(0), Expr::Imm(U256::ZERO.wrapping_sub(U256::from(m))))));
+    let program = vec![
+        Stmt::If(mode_is(0), vec![Stmt::Sstore(Expr::CallData(1), add(Expr::Balance(Box::new(Expr::Coinbase)), Expr::CallData(2)))]),
+        Stmt::If(mode_is(1), vec![Stmt::If(odd(sload(Expr::CallData(1))), vec![Stmt::Mix(sload(add(Expr::CallData(1), imm(7))))])]),
+        Stmt::If(
+            mode_is(2),
+            vec![
+                Stmt::If(odd(sload(Expr::CallData(1))), vec![Stmt::Mix(sload(add(Expr::CallData(1), imm(7))))]),
+                Stmt::Sstore(Expr::CallData(2), imm(5)),
+            ],
+        ),
+        Stmt::If(mode_is(3), vec![Stmt::Mix(Expr::Balance(Box::new(Expr::Coinbase))), Stmt::Sstore(Expr::CallData(1), Expr::Acc)]),
+    ];
+    let storage: Vec<(u64, u64)> = vec![(0, rng.below(4)), (1, rng.below(4)), (7, 3), (8, 4)];
+    pre_state.push(contract_account(k, &program, &storage, 0));
+    let n = rng.range(3, max_txs.max(3) as u64) as usize;
+    let s = |rng: &mut Prng| rng.below(n_eoa as u64) as usize;
+    let mut out: Vec<Intent> = Vec::new();
+    // skeleton in order: (transfer)? writer, brancher, (brancher)?, probe; the rest is drawn freely
+    let slot = rng.below(2);
+    if rng.chance(2, 3) {
+        out.push(Intent { sender: s(rng), to: Some(eoa(s(rng))), value: U256::from(1 + rng.below(9)), data: Bytes::new(), gas_limit: 30_000, auths: vec![], label: "transfer" });
+    }
+    out.push(Intent::call(s(rng), k, &[0, slot, rng.below(2)], "race-writer"));
+    out.push(Intent::call(s(rng), k, &[1 + rng.below(2), slot, 20 + rng.below(2)], "race-brancher"));
+    out.push(Intent::call(s(rng), k, &[3, 30 + rng.below(2)], "race-probe"));
+    while out.len() < n {
+        let at = rng.below(out.len() as u64 + 1) as usize;
+        let intent = match rng.below(6) {
+            0 => Intent { sender: s(rng), to: Some(eoa(s(rng))), value: U256::from(1 + rng.below(9)), data: Bytes::new(), gas_limit: 30_000, auths: vec![], label: "transfer" },
+            1 => Intent::call(s(rng), k, &[0, rng.below(2), rng.below(2)], "race-writer"),
+            2 | 3 => Intent::call(s(rng), k, &[1 + rng.below(2), rng.below(2), 20 + rng.below(2)], "race-brancher"),
+            _ => Intent::call(s(rng), k, &[3, 30 + rng.below(2)], "race-probe"),
+        };
+        out.insert(at, intent);
+    }
+    out.truncate(max_txs.max(3));
     out
 }
